@@ -2,6 +2,10 @@ use crate::common::*;
 
 pub mod c02;
 pub mod c07;
+pub mod c09;
+pub mod c11;
+pub mod store_h;
+pub mod tmodel;
 pub mod c08;
 pub mod c14;
 pub mod c15;
@@ -22,6 +26,8 @@ pub fn dispatch(id: &str, tier: Tier, replay: Option<&str>) -> i32 {
         }
         "C07" => c07::run(tier),
         "C08" => c08::run(tier),
+        "C09" => c09::run(tier),
+        "C11" => c11::run(tier),
         "C14" => c14::run(tier),
         "C15" => c15::run(tier),
         "C16" => c16::run(tier),
